@@ -874,6 +874,38 @@ func c16BlockNeighbours(c *Ctx, r *Rng) {
 			return
 		}
 		c.Eval(1)
+		// placement: what a block of conformant lines declares does not depend on the code line directly above it (none,
+		// a statement, a statement with a trailing comment)
+		{
+			rl := rr.Fork(0x6c61796f7574)
+			fillers := []string{"local pad%d = %d", "local pad%d = %d -- trailing note", "local pad%d = %d --- trailing note", "print(%d, %d) -- trailing note", "local pad%d = %d --[[ block note ]]"}
+			ll := append([]string{}, lines...)
+			var used []string
+			for li := 1; li < len(ll); li++ {
+				if ll[li-1] == "" && strings.HasPrefix(ll[li], "---@") {
+					f := rl.Pick(fillers)
+					ll[li-1] = fmt.Sprintf(f, li, li)
+					used = append(used, strings.SplitN(f, "%d", 3)[2])
+				}
+			}
+			lh, l18, ok := observe(strings.Join(ll, "\n")+"\n", fmt.Sprintf("c16l%d", i))
+			if !ok {
+				c.Inconclusive("server failed on an annotation file (C01's business)")
+				return
+			}
+			c.Count("block_placements", 1)
+			for l, ms := range l18 {
+				c.Report("conformant-block-warned-after-code-line", fmt.Sprintf("placing code lines %q directly above the annotation blocks puts %q on line %d", used, ms[0], l), map[string]interface{}{"file": strings.Join(ll, "\n")})
+			}
+			for pi, p := range probes {
+				c.Count("block_placement_hovers_compared", 1)
+				if lh[pi] != bh[pi] {
+					c.Report("block-understood-differently-after-code-line", fmt.Sprintf("with code lines %q directly above the annotation blocks, %s is understood as %q instead of %q", used, p.what, truncate(lh[pi], 100), truncate(bh[pi], 100)),
+						map[string]interface{}{"file": strings.Join(ll, "\n")})
+					break
+				}
+			}
+		}
 		// corrupt one line that is neither the first nor the last of its block
 		victim := rr.Range(1, nf-2)
 		inParams := rr.Bool()
